@@ -60,6 +60,7 @@ PRELUDE = """fn fail_arity(a) { return a; }
 fn fail_rec(n) { return fail_rec(n + 1); }
 fn fail_fiber() { var f = Fiber.new(|| { return 1; }); f.call(); f.call(); }
 #[constructor(new)] class Exc { }
+#[derive(ValueError), constructor(new)] class SubErr { }
 fn fail(k) {
   if k == nil { return nil; }
 %s  return nil;
@@ -226,7 +227,7 @@ class Gen:
                 return self.simple(ctx)
             if r.chance(0.3):
                 return ["failop", self.id(), r.choice([1, 2, 3, 4, 5, 6, 7, 8, 11, 12])]
-            return ["throw", self.id(), r.choice(["s", "s", "n", "i", "t"])]
+            return ["throw", self.id(), r.choice(["s", "s", "n", "i", "t", "e"])]
         if k < 90:
             if ctx["fin_level"] > 0 and not self.f.get("finally_local") and not self.k.get("finally_locals"):
                 return self.simple(ctx)
@@ -378,7 +379,7 @@ def render_all(ir):
         elif k == "chk":
             emit('fail(print(("chk", "%s")));' % st[1], ind)
         elif k == "throw":
-            v = {"s": '"t%d"' % st[1], "n": "%d" % st[1], "i": "Exc.new()", "t": '("tt", %d)' % st[1]}[st[2]]
+            v = {"s": '"t%d"' % st[1], "n": "%d" % st[1], "i": "Exc.new()", "e": "SubErr.new()", "t": '("tt", %d)' % st[1]}[st[2]]
             emit("throw %s;" % v, ind)
         elif k == "failop":
             emit("{ %s }" % OPS[st[2]][0], ind)
@@ -686,7 +687,10 @@ def model(ir, tape, faults):
             if vk == "n":
                 raise Thrown(cls("Num"), num(st[1]), "%d" % st[1])
             if vk == "i":
-                raise Thrown(cls("Exc"), inst("Exc"), "Exc instance")
+                raise Thrown(cls("Exc"), inst("Exc"), "Unhandled Exc: <Exc instance")
+            if vk == "e":
+                # an instance of a program-declared subclass of a built-in error class: reported under its own class
+                raise Thrown(cls("SubErr"), inst("SubErr"), "Unhandled SubErr: <SubErr instance")
             raise Thrown(cls("Tuple"), tup(s("tt"), num(st[1])), "(tt, %d)" % st[1])
         elif k == "failop":
             c = OPS[st[2]][1]
